@@ -751,16 +751,20 @@ func sortedKeys(m map[string]int) []string {
 
 const rule = "state with at least two live tokens; distinct by canonical hash of the nft store and the reference ownership map"
 
-// Parts: one exploration per assignment of restriction flags to (c1, c2).
-func Parts() []mc.Part {
-	vs := []Variant{
+// Variants exposes the explorations for reuse by the cross-cutting checks (C11, C12).
+func Variants() []Variant {
+	return []Variant{
 		{Name: "c1-open.c2-mintR+updR", Flags: [2][2]bool{{false, false}, {true, true}}},
 		{Name: "c1-mintR.c2-updR", Flags: [2][2]bool{{true, false}, {false, true}}},
 		{Name: "c1-updR.c2-mintR", Flags: [2][2]bool{{false, true}, {true, false}}},
 		{Name: "c1-mintR+updR.c2-open", Flags: [2][2]bool{{true, true}, {false, false}}},
 	}
+}
+
+// Parts: one exploration per assignment of restriction flags to (c1, c2).
+func Parts() []mc.Part {
 	var ps []mc.Part
-	for _, v := range vs {
+	for _, v := range Variants() {
 		ps = append(ps, mc.ExplorePart(v.Name, New(v), depthQuick, depthThorough, false, rule))
 	}
 	return ps
